@@ -445,7 +445,7 @@ def provision(world: World) -> None:
     from pymap.backend.dict.filter import FilterSet
 
     async def build():
-        for user in USERS:
+        for user in world.users:
             mset = MailboxSet()
             fset = FilterSet()
             await mset.add_mailbox('marker_' + user)
@@ -517,7 +517,8 @@ class ImapDriver:
     """One connection to one fresh server, spoken to in the spec's alphabet."""
 
     def __init__(self, env: str, rng, *, rich: bool = True, local: bool | None = None,
-                 config_kw: dict | None = None, variants: bool = True):
+                 config_kw: dict | None = None, variants: bool = True,
+                 users: dict | None = None):
         kw = dict(ENVS[env])
         self.env = env
         loc = kw.pop('local', True if local is None else local)
@@ -526,7 +527,7 @@ class ImapDriver:
         self.local = loc
         self.rng = rng
         self.variants = variants
-        self.world = World('dict', demo=False, users=USERS, tls=kw['tls'],
+        self.world = World('dict', demo=False, users=users or USERS, tls=kw['tls'],
                            config_kw=config_kw)
         provision(self.world)
         # the mail is put in place right before the first authentication
